@@ -232,11 +232,17 @@ class Ctx:
             with open(path, "w") as fh:
                 fh.writelines(header)
                 fh.writelines(lines)
+            prog = path + ".progress"
             try:
-                res = self.vh_quiet(sub, path, *args, timeout=timeout)
+                res = self.vh_quiet(sub, path, *args, timeout=timeout, env={"VH_PROGRESS_FILE": prog})
             except subprocess.TimeoutExpired:
                 res = dict(error="timeout", rc=-9, stderr="worker exceeded %ds" % timeout)
             os.unlink(path)
+            try:
+                res["progress"] = int(open(prog).read().strip() or 0) if res.get("error") else 0
+                os.unlink(prog)
+            except (OSError, ValueError):
+                pass
             return res
 
         def merge(res):
@@ -266,6 +272,16 @@ class Ctx:
                     what="the process running the real code died or hung on this case (rc=%s): %s" % (res.get("rc"), first[:300]),
                     replay=dict(kind="raw-case", sub=sub, line=lines[0].strip()[:20000])))
                 return
+            k = res.get("progress") or 0
+            if 1 <= k <= len(lines):
+                # the worker recorded the ordinal of the case it was running when it died: that case alone, then the
+                # cases before it (their results were lost with the worker) and the cases behind it
+                go(lines[k - 1:k])
+                if k > 1:
+                    go(lines[:k - 1])
+                if k < len(lines):
+                    go(lines[k:])
+                return
             mid = len(lines) // 2
             go(lines[:mid])
             go(lines[mid:])
@@ -278,9 +294,10 @@ class Ctx:
         log("[vh-isolated] %s: %d cases in %d workers, %d mismatches" % (sub, total["cases"], n_workers[0], total["n_mismatch"]))
         return total
 
-    def vh_quiet(self, sub, *args, timeout=3600):
+    def vh_quiet(self, sub, *args, timeout=3600, env=None):
         cmd = [self.vh_path, sub] + [str(a) for a in args]
-        p = subprocess.run(cmd, capture_output=True, text=True, timeout=timeout, cwd=self.scratch)
+        p = subprocess.run(cmd, capture_output=True, text=True, timeout=timeout, cwd=self.scratch,
+                           env=dict(os.environ, **(env or {})))
         for line in p.stdout.split("\n"):
             if line.startswith("RESULT "):
                 res = json.loads(line[7:])
